@@ -71,6 +71,7 @@ FOCUS4 = {
  "C19": "LoggingCallbackStepState.next with several environments, the smoothing factor, and average_reward's number of episodes and per-episode keys",
  "C20": "G1Standup / G1Standing specifics, the gait phase observation, the desired foot-height function between its end points, and snapping the robot to the ground at reset",
 }
+FOCUS5 = {pid: "a place of your own choosing that a reviewer would be least likely to look at: an interaction between two features, a rarely used public entry point or option, a numerically or structurally degenerate input (empty, size one, all equal, zero, repeated calls on one object), or a code path taken only under jit / vmap / several environments" for pid in FOCUS}
 T = open("/verif/tools/seed_prompt_template.txt").read()
 for pid, p in sorted(props.items()):
     if only and pid not in only:
@@ -81,6 +82,6 @@ for pid, p in sorted(props.items()):
         subprocess.run(["git", "-C", "/repo", "worktree", "add", "--detach", wt, "HEAD"], check=True, capture_output=True)
     txt = (T.replace("@WT@", wt).replace("@ID@", pid).replace("@TITLE@", p["title"]).replace("@STATEMENT@", p["statement"])
            .replace("@QUANT@", p["quantifier"]["text"]).replace("@FILES@", ", ".join(p["anchors"]["files"]))
-           .replace("@FOCUS@", ({"3": FOCUS3, "4": FOCUS4}.get(tag, FOCUS))[pid]))
+           .replace("@FOCUS@", ({"3": FOCUS3, "4": FOCUS4, "5": FOCUS5}.get(tag, FOCUS))[pid]))
     open(f"/tmp/prompt_{tag}_{pid}.txt", "w").write(txt)
     print(pid, wt)
